@@ -719,6 +719,11 @@ impl Visit for Analyzer<'_> {
     let body_lo = n.body.start();
     let expr_ctxt = self.expr_ctxt;
 
+    // The test is evaluated before the body.  Visiting it after the loop (when
+    // an infinite loop has already ended the scope) would lose the fact that it
+    // may throw: `try { while (f() || true) {} } catch { reachable }`.
+    n.test.visit_with(self);
+
     self.with_child_scope(BlockKind::Loop, body_lo, |a| {
       n.body.visit_with(a);
 
@@ -742,13 +747,12 @@ impl Visit for Analyzer<'_> {
         a.scope.end = Some(End::Continue);
       }
     });
-
-    n.test.visit_with(self);
   }
 
   fn visit_do_while_stmt(&mut self, n: &DoWhileStmt) {
     let body_lo = n.body.start();
     let expr_ctxt = self.expr_ctxt;
+    let prev_end = self.scope.end;
 
     self.with_child_scope(BlockKind::Loop, body_lo, |a| {
       n.body.visit_with(a);
@@ -784,7 +788,13 @@ impl Visit for Analyzer<'_> {
       _ => {}
     }
 
+    // The test may be evaluated (and may throw) although the loop as a whole
+    // ends the scope (`do {} while (f() || true)`): visit it in the state the
+    // scope had before the loop.
+    let end = self.scope.end;
+    self.scope.end = prev_end;
     n.test.visit_with(self);
+    self.scope.end = end;
   }
 
   fn visit_try_stmt(&mut self, n: &TryStmt) {
